@@ -5,6 +5,7 @@ use substrate_fixed::traits::{Fixed, FixedSigned, FixedUnsigned};
 use substrate_fixed::verif_hooks as hooks;
 
 include!(concat!(env!("OUT_DIR"), "/dispatch.rs"));
+#[path = "../ext_bits.rs"] mod ext_bits;   // extension Bits: rem_int forms, constants, shift / `%` impl variants, `<op>_inh`
 
 fn fx<F: Fixed>(x: F) -> String where F::Bits: Prim { format!("{}", x.to_bits()) }
 fn opt<F: Fixed>(x: Option<F>) -> String where F::Bits: Prim { match x { None => "N".into(), Some(v) => format!("S:{}", v.to_bits()) } }
@@ -163,6 +164,7 @@ const UNSIGNED_ONLY: &[&str] = &["is_power_of_two", "next_power_of_two", "checke
 
 
 fn typed(op: &str, s: bool, n: u32, f: u32, a: &[&str]) -> String {
+    if ext_bits::handles(op) { return ext_bits::typed(op, s, n, f, a); }
     if SIGNED_ONLY.contains(&op) {
         if !s { return "UNKNOWN".into(); }
         return sfx_dispatch_s!(n, f, run_signed(op, a));
